@@ -168,7 +168,8 @@ PROP = {
         "default jobs exclude, by verifAssume, a block-scalar header line (indicator, chomping sign, comment) that contains the first byte of the value [finding C06-block-header-match], and do not generate continuation/content lines indented less than key column + 2 [finding C06-shallow-continuation]; C06_FINDINGS=1 adds jobs that keep both",
         "DecodeExpr (PromQL parsing) is cut; model.LabelName/LabelValue.IsValid are cut to true in the symbolic run",
     ],
-    "outside": ["escapes in double-quoted scalars and '' in single-quoted ones", "flow mappings, tabs, non-ASCII", "explicit indentation indicators (|2)",
+    "outside": ["L1: a result that is exactly the node's own place while that place does not spell the first value character is the documented fallback for a value the source does not spell (escape sequences); it is accepted without a read-back claim (L3 requires the exact places for every listed style, so returning the fallback for a spelled value is a violation there)",
+                "escapes in double-quoted scalars and '' in single-quoted ones", "flow mappings, tabs, non-ASCII", "explicit indentation indicators (|2)",
                 "blank lines inside or in front of block scalar content (natively confirmed mis-positions, see notes/C06.md)", "multi-line quoted scalars",
                 "YAML comment attachment, strict-mode group walk (parseGroups), YAML-in-YAML re-parse (only its offsets are modelled)"],
 }
